@@ -34,6 +34,14 @@ package remoting
 //@   ghostvar ml int
 //@   callspec Uint32 sets ml = result + 1
 //@   callspec Kill requires rf == 1 || ml == 1
+//@   ghostvar dsys bool
+//@   ghostvar dsa any
+//@   ghostvar dsp any
+//@   ghostvar dra any
+//@   ghostvar drp any
+//@   ghostvar dmsg any
+//@   callspec DecodeEnvelopWithRemoting sets dsys = result.0, dsa = iface(result.1), dsp = iface(result.2), dra = iface(result.3), drp = iface(result.4), dmsg = result.5
+//@   callspec HandleRemotingEnvelop requires arg0 == dsys && iface(arg1) == dsa && iface(arg2) == dsp && iface(arg3) == dra && iface(arg4) == drp && arg5 == dmsg
 //@   callspec HandleRemotingEnvelop requires gcount(consumed, c.conn) == old(gcount(consumed, c.conn)) + 4 + len(msgBuf)
 //@   callspec TellSelf requires gcount(consumed, c.conn) == old(gcount(consumed, c.conn)) + 4 + (msgLen > 4194304 ? 0 : msgLen)
 //@   requires c.conn != nil && !typeis(c.conn, "*bufio.Reader") && ctx != nil && c.envelopHandler != nil && !held(c.writeCloseLock) && messages.regwf()
